@@ -263,6 +263,10 @@ def run_case(case: dict[str, Any], wd: Path) -> dict[str, Any]:
             if "u" in snap["variables"] and len(snap["variables"]["u"]) and abs(float(snap["variables"]["u"][0]) - wu) > tol_rel * (1 + abs(wu)) * 3:
                 V.append(C.viol(f"step {s}: forcing.variables['u'] = {float(snap['variables']['u'][0]):.6f}, interpolation gives {wu:.6f}", **desc))
                 break
+            wv0 = sgn * interp(P, av, x)
+            if "v" in snap["variables"] and len(snap["variables"]["v"]) and abs(float(snap["variables"]["v"][0]) - wv0) > tol_rel * (1 + abs(wv0)) * 3:
+                V.append(C.viol(f"step {s}: forcing.variables['v'] = {float(snap['variables']['v'][0]):.6f}, interpolation gives {wv0:.6f}", **desc))
+                break
             for name, vals in scal_vals.items():
                 passed = [n for n in range(nfr) if step_of_frame[n] <= s]
                 n_latest = max(passed, key=lambda n: step_of_frame[n])
